@@ -354,3 +354,175 @@ fn rc_witness() {
     }
     std::mem::forget(c);
 }
+
+// =====================================================================================================================
+// CONTRACT variant (process_packet with the parser replaced by its contract: any V-valid packet).  C08: a reliable
+// message is released only by an acknowledgement of a packet that carried it; C03 / C06 / C11: dispatch by channel id.
+use crate::packet::verif_kani::NEXT_PACKET;
+
+fn stage_packet(p: Packet) {
+    #[allow(static_mut_refs)]
+    unsafe {
+        NEXT_PACKET = Some(Ok(p));
+    }
+}
+
+/// two reliable small messages in flight, each carried by its own sent packet; one incoming Ack packet with one range
+#[kani::proof]
+#[kani::unwind(8)]
+#[kani::stub(crate::connection_stats::ConnectionStats::acked_packet, stub_stats_acked)]
+fn rc_ack_release_small() {
+    let mut c = two_channel_client(true);
+    let now = any_secs();
+    c.current_time = now;
+    let (m0, m1) = (any_id(), any_id());
+    kani::assume(m0 < m1);
+    let (l0, l1): (usize, usize) = (kani::any(), kani::any());
+    kani::assume(l0 <= 1200 && l1 <= 1200);
+    {
+        let ch = c.send_reliable_channels.get_mut(&0).unwrap();
+        rel::put_small(ch, 0, m0, l0, 100, Some(now));
+        rel::put_small(ch, 1, m1, l1, 101, Some(now));
+        rel::set_send_mem(ch, l0 + l1, m1 + 1);
+    }
+    // the two packets that carried them (sequence numbers symbolic, sent in this order)
+    let (s0, s1) = (any_id(), any_id());
+    kani::assume(s0 < s1);
+    c.packet_sequence = s1 + 1;
+    c.sent_packets.slots[0] = Some((s0, PacketSent { sent_at: now, info: PacketSentInfo::ReliableMessages { channel_id: 0, message_ids: vec![m0] } }));
+    c.sent_packets.slots[1] = Some((s1, PacketSent { sent_at: now, info: PacketSentInfo::ReliableMessages { channel_id: 0, message_ids: vec![m1] } }));
+    c.sent_packets.len = 2;
+    // incoming: an Ack packet with one arbitrary V-valid range
+    let (a, b) = (any_id(), any_id());
+    kani::assume(a < b);
+    let q = any_id();
+    kani::assume(q + 1 < IDMAX);
+    stage_packet(Packet::Ack { sequence: q, ack_ranges: vec![a..b] });
+    let buf = [4u8; 4];
+    c.process_packet(&buf);
+    let acked0 = a <= s0 && s0 < b;
+    let acked1 = a <= s1 && s1 < b;
+    let ch = c.send_reliable_channels.get(&0).unwrap();
+    assert!(rel::has_msg(ch, m0) == !acked0, "message released without (or kept despite) an acknowledgement of the packet that carried it");
+    assert!(rel::has_msg(ch, m1) == !acked1, "message released without (or kept despite) an acknowledgement of the packet that carried it");
+    assert!(rel::send_mem(ch) == (if acked0 { 0 } else { l0 }) + (if acked1 { 0 } else { l1 }), "bytes of a released message not returned exactly once");
+    assert!(c.sent_packets.contains_key(&s0) == !acked0 && c.sent_packets.contains_key(&s1) == !acked1, "sent-packet record not consumed exactly by its acknowledgement");
+    assert!(c.pending_acks.len() == 1 && c.pending_acks[0] == (q..q + 1), "the received packet itself is not recorded for acknowledgement");
+    assert!(!c.is_disconnected());
+    kani::cover!(acked0 && !acked1, "only the first");
+    kani::cover!(acked0 && acked1, "both");
+    std::mem::forget(c);
+}
+
+/// a sliced message (2 slices), each slice carried by its own packet: released only when both packets are acknowledged
+#[kani::proof]
+#[kani::unwind(8)]
+#[kani::stub(crate::connection_stats::ConnectionStats::acked_packet, stub_stats_acked)]
+fn rc_ack_release_sliced() {
+    let mut c = two_channel_client(true);
+    let now = any_secs();
+    c.current_time = now;
+    let m = any_id();
+    let len: usize = kani::any();
+    kani::assume(len > 1200 && len <= 2400);
+    let pre_acked: bool = kani::any(); // slice 0 already acknowledged earlier?
+    {
+        let ch = c.send_reliable_channels.get_mut(&0).unwrap();
+        rel::put_sliced2(ch, m, len, pre_acked, now);
+        rel::set_send_mem(ch, len, m + 1);
+    }
+    // slice 0 was transmitted twice (original + retransmission), slice 1 once; the harness acks a symbolic range
+    let (s0, s1) = (any_id(), any_id());
+    kani::assume(s0 < s1);
+    let i0: usize = 0;
+    let i1: usize = if kani::any() { 0 } else { 1 };
+    c.packet_sequence = s1 + 1;
+    c.sent_packets.slots[0] = Some((s0, PacketSent { sent_at: now, info: PacketSentInfo::ReliableSliceMessage { channel_id: 0, message_id: m, slice_index: i0 } }));
+    c.sent_packets.slots[1] = Some((s1, PacketSent { sent_at: now, info: PacketSentInfo::ReliableSliceMessage { channel_id: 0, message_id: m, slice_index: i1 } }));
+    c.sent_packets.len = 2;
+    let (a, b) = (any_id(), any_id());
+    kani::assume(a < b);
+    let q = any_id();
+    kani::assume(q + 1 < IDMAX);
+    stage_packet(Packet::Ack { sequence: q, ack_ranges: vec![a..b] });
+    let buf = [4u8; 4];
+    c.process_packet(&buf);
+    let acked0 = a <= s0 && s0 < b;
+    let acked1 = a <= s1 && s1 < b;
+    // which slice indexes are acknowledged now (by this ack or earlier)
+    let have0 = pre_acked || acked0 || (acked1 && i1 == 0);
+    let have1 = acked1 && i1 == 1;
+    let ch = c.send_reliable_channels.get(&0).unwrap();
+    assert!(rel::has_msg(ch, m) == !(have0 && have1), "sliced message released before every slice was acknowledged (or kept although all were)");
+    assert!(rel::send_mem(ch) == if have0 && have1 { 0 } else { len });
+    kani::cover!(have0 && have1, "released");
+    kani::cover!(acked0 && acked1 && i1 == 0 && !have1, "same slice acknowledged twice: not released");
+    std::mem::forget(c);
+}
+
+/// dispatch by channel id (C03 / C06 / C11): a small reliable packet reaches exactly the receive channel it names;
+/// a channel id that is not a reliable receive channel disconnects and changes no channel
+#[kani::proof]
+#[kani::unwind(8)]
+fn rc_dispatch_small_reliable() {
+    let mut c = two_channel_client(kani::any());
+    let before = obs(&c);
+    let ch_id: u8 = kani::any();
+    let mid = any_id();
+    let len: usize = kani::any();
+    kani::assume(len <= 1200);
+    let q = any_id();
+    kani::assume(q + 1 < IDMAX);
+    stage_packet(Packet::SmallReliable { sequence: q, channel_id: ch_id, messages: vec![(mid, vbytes(len, 7))] });
+    let buf = [0u8; 4];
+    c.process_packet(&buf);
+    let after = obs(&c);
+    assert!(after.0 == before.0 && after.1 == before.1, "a received packet changed a send channel");
+    if ch_id == 0 {
+        assert!(!c.is_disconnected());
+        assert!(after.2 == before.2 + len, "message not buffered (once) on the reliable receive channel it was addressed to");
+    } else {
+        assert!(c.disconnect_reason() == Some(DisconnectReason::ReceivedInvalidChannelId(ch_id)), "packet for a channel that does not exist (or is not reliable) must disconnect with that channel id");
+        assert!(after.2 == before.2, "message for another channel delivered to the reliable channel");
+    }
+    assert!(c.receive_unreliable_channels.get(&1).map(|u| crate::channel::unreliable::verif_kani::recv_mem(u)) == Some(0), "unreliable channel received a reliable message");
+    std::mem::forget(c);
+}
+
+#[kani::proof]
+#[kani::unwind(8)]
+fn rc_dispatch_small_unreliable() {
+    let mut c = two_channel_client(kani::any());
+    let before = obs(&c);
+    let ch_id: u8 = kani::any();
+    let len: usize = kani::any();
+    kani::assume(len <= 1200);
+    let q = any_id();
+    kani::assume(q + 1 < IDMAX);
+    stage_packet(Packet::SmallUnreliable { sequence: q, channel_id: ch_id, messages: vec![vbytes(len, 7)] });
+    let buf = [1u8; 4];
+    c.process_packet(&buf);
+    let after = obs(&c);
+    assert!(after.0 == before.0 && after.1 == before.1 && after.2 == before.2, "an unreliable message touched a send channel or the reliable receive channel");
+    let um = c.receive_unreliable_channels.get(&1).map(|u| crate::channel::unreliable::verif_kani::recv_mem(u)).unwrap();
+    if ch_id == 1 {
+        assert!(!c.is_disconnected() && um == len, "message not queued (once) on the unreliable channel it was addressed to");
+    } else {
+        assert!(c.disconnect_reason() == Some(DisconnectReason::ReceivedInvalidChannelId(ch_id)) && um == 0);
+    }
+    std::mem::forget(c);
+}
+
+/// vacuity witness of the contract variant (must FAIL)
+#[kani::proof]
+#[kani::unwind(8)]
+fn rcc_witness() {
+    let mut c = two_channel_client(true);
+    stage_packet(Packet::Ack { sequence: 5, ack_ranges: vec![1..2] });
+    let buf = [4u8; 4];
+    c.process_packet(&buf);
+    if c.pending_acks.len() == 1 {
+        assert!(false, "witness");
+    }
+    std::mem::forget(c);
+}
